@@ -38,6 +38,7 @@ type World struct {
 	intLenC map[string][]int
 	elemC   map[elemKey]*elemBound
 	condC     map[string][]condFact
+	constMaps map[*ssa.Global]*constMapInfo
 }
 
 func NewWorld(p *load.Program) *World {
